@@ -636,7 +636,37 @@ run_direct(IMB_MGR *mgr)
                 OK("AES256_GCM_INIT_VAR_IV", IMB_AES256_GCM_INIT_VAR_IV(mgr, &gk, &gctx, iv, 16, buf, 4));
                 OK("AES256_GCM_DEC_UPDATE", IMB_AES256_GCM_DEC_UPDATE(mgr, &gk, &gctx, out, buf, 20));
                 OK("AES256_GCM_DEC_FINALIZE", IMB_AES256_GCM_DEC_FINALIZE(mgr, &gk, &gctx, tag, 16));
+                /* legal degenerate calls: a zero length makes the matching data pointer irrelevant (the
+                 * library's own argument checks say "out/in != NULL (msg_len != 0)", "aad != NULL
+                 * (aad_len != 0)"); such a call succeeds and must leave no error code behind */
+                OK("AES128_GCM_PREz", IMB_AES128_GCM_PRE(mgr, key, &gk));
+                OK("AES128_GCM_INIT(aad=NULL,0)", IMB_AES128_GCM_INIT(mgr, &gk, &gctx, iv, NULL, 0));
+                OK("AES128_GCM_ENC_UPDATE(NULL,NULL,0)", IMB_AES128_GCM_ENC_UPDATE(mgr, &gk, &gctx, NULL, NULL, 0));
+                OK("AES128_GCM_ENC_UPDATE(out,NULL,0)", IMB_AES128_GCM_ENC_UPDATE(mgr, &gk, &gctx, out, NULL, 0));
+                OK("AES128_GCM_ENC_UPDATE(NULL,in,0)", IMB_AES128_GCM_ENC_UPDATE(mgr, &gk, &gctx, NULL, buf, 0));
+                OK("AES128_GCM_ENC_FINALIZEz", IMB_AES128_GCM_ENC_FINALIZE(mgr, &gk, &gctx, tag, 16));
+                OK("AES128_GCM_INITz", IMB_AES128_GCM_INIT(mgr, &gk, &gctx, iv, buf, 3));
+                OK("AES128_GCM_DEC_UPDATE(NULL,NULL,0)", IMB_AES128_GCM_DEC_UPDATE(mgr, &gk, &gctx, NULL, NULL, 0));
+                OK("AES128_GCM_DEC_UPDATE(out,NULL,0)", IMB_AES128_GCM_DEC_UPDATE(mgr, &gk, &gctx, out, NULL, 0));
+                OK("AES128_GCM_DEC_UPDATE(NULL,in,0)", IMB_AES128_GCM_DEC_UPDATE(mgr, &gk, &gctx, NULL, buf, 0));
+                OK("AES128_GCM_DEC_FINALIZEz", IMB_AES128_GCM_DEC_FINALIZE(mgr, &gk, &gctx, tag, 16));
+                OK("AES128_GCM_ENC(len=0,aad=0,NULLs)",
+                   IMB_AES128_GCM_ENC(mgr, &gk, &gctx, NULL, NULL, 0, iv, NULL, 0, tag, 16));
+                OK("AES128_GCM_DEC(len=0,aad=0,NULLs)",
+                   IMB_AES128_GCM_DEC(mgr, &gk, &gctx, NULL, NULL, 0, iv, NULL, 0, tag, 16));
+                OK("AES192_GCM_PREz", IMB_AES192_GCM_PRE(mgr, key, &gk));
+                OK("AES192_GCM_INIT_VAR_IV(aad=NULL,0)", IMB_AES192_GCM_INIT_VAR_IV(mgr, &gk, &gctx, iv, 16, NULL, 0));
+                OK("AES192_GCM_ENC_UPDATE(NULL,NULL,0)", IMB_AES192_GCM_ENC_UPDATE(mgr, &gk, &gctx, NULL, NULL, 0));
+                OK("AES192_GCM_DEC_UPDATE(NULL,NULL,0)", IMB_AES192_GCM_DEC_UPDATE(mgr, &gk, &gctx, NULL, NULL, 0));
+                OK("AES192_GCM_ENC(len=0,NULLs)", IMB_AES192_GCM_ENC(mgr, &gk, &gctx, NULL, NULL, 0, iv, buf, 7, tag, 12));
+                OK("AES192_GCM_DEC(aad=0,NULL)", IMB_AES192_GCM_DEC(mgr, &gk, &gctx, out, buf, 9, iv, NULL, 0, tag, 12));
+                OK("AES256_GCM_PREz", IMB_AES256_GCM_PRE(mgr, key, &gk));
+                OK("AES256_GCM_INITz", IMB_AES256_GCM_INIT(mgr, &gk, &gctx, iv, NULL, 0));
+                OK("AES256_GCM_ENC_UPDATE(NULL,NULL,0)", IMB_AES256_GCM_ENC_UPDATE(mgr, &gk, &gctx, NULL, NULL, 0));
+                OK("AES256_GCM_DEC_UPDATE(NULL,NULL,0)", IMB_AES256_GCM_DEC_UPDATE(mgr, &gk, &gctx, NULL, NULL, 0));
+                OK("AES256_GCM_DEC_FINALIZEz", IMB_AES256_GCM_DEC_FINALIZE(mgr, &gk, &gctx, tag, 16));
                 OK("AES256_GMAC_INIT", IMB_AES256_GMAC_INIT(mgr, &gk, &gctx, iv, 12));
+                OK("AES256_GMAC_UPDATE(NULL,0)", IMB_AES256_GMAC_UPDATE(mgr, &gk, &gctx, NULL, 0));
                 OK("AES256_GMAC_UPDATE", IMB_AES256_GMAC_UPDATE(mgr, &gk, &gctx, buf, 48));
                 OK("AES256_GMAC_FINALIZE", IMB_AES256_GMAC_FINALIZE(mgr, &gk, &gctx, tag, 16));
                 OK("SHA224_ONE_BLOCK", IMB_SHA224_ONE_BLOCK(mgr, buf, tag));
